@@ -3,12 +3,32 @@
  *   "<argc>\n" then for every argument "<length>\n<bytes>\n".
  * Prints the bytes hex-encoded in RECPLUG_OUT to stdout, optionally sleeps RECPLUG_SLEEP seconds,
  * optionally kills itself with signal RECPLUG_SIGNAL, and exits with status RECPLUG_EXIT (default 0).
+ * Timeout scenarios:
+ *   RECPLUG_TERM=ignore            SIGTERM is ignored (only SIGKILL ends the sleep)
+ *   RECPLUG_TERM=exit:<code>:<ms>  SIGTERM is caught; <ms> milliseconds later "trapped" is printed and the
+ *                                  process exits with <code>
+ *   RECPLUG_GCHILD=<seconds>       a grandchild that keeps stdout open sleeps <seconds>; its pid is written to
+ *                                  "<RECPLUG_FILE>.gc"; the plugin itself goes on (sleep / exit) as configured
  */
 #include <stdio.h>
 #include <stdlib.h>
 #include <string.h>
 #include <signal.h>
 #include <unistd.h>
+#include <time.h>
+#include <errno.h>
+
+static volatile sig_atomic_t got_term = 0;
+static void on_term(int sig) { (void)sig; got_term = 1; }
+
+static void msleep(long ms)
+{
+	struct timespec ts;
+	ts.tv_sec = ms / 1000;
+	ts.tv_nsec = (ms % 1000) * 1000000L;
+	while (nanosleep(&ts, &ts) < 0 && errno == EINTR && !got_term)
+		;
+}
 
 static int hexval(int c)
 {
@@ -55,8 +75,58 @@ int main(int argc, char **argv)
 		fflush(stdout);
 	}
 
-	if (sl && *sl)
-		sleep((unsigned)atoi(sl));
+	{
+		const char *gc = getenv("RECPLUG_GCHILD");
+		if (gc && *gc) {
+			pid_t pid = fork();
+			if (pid == 0) {
+				/* keeps stdout/stderr (the pipe to Icinga) open */
+				msleep(atol(gc) * 1000L);
+				_exit(0);
+			}
+			if (file && *file) {
+				char gp[4096];
+				FILE *g;
+				snprintf(gp, sizeof(gp), "%s.gc", file);
+				g = fopen(gp, "w");
+				if (g) { fprintf(g, "%ld\n", (long)pid); fclose(g); }
+			}
+		}
+	}
+
+	{
+		const char *tm = getenv("RECPLUG_TERM");
+		int tcode = -1;
+		long tdelay = 0;
+		if (tm && strcmp(tm, "ignore") == 0)
+			signal(SIGTERM, SIG_IGN);
+		else if (tm && strncmp(tm, "exit:", 5) == 0) {
+			struct sigaction sa;
+			memset(&sa, 0, sizeof(sa));
+			sa.sa_handler = on_term;
+			sigaction(SIGTERM, &sa, NULL);
+			sscanf(tm + 5, "%d:%ld", &tcode, &tdelay);
+		}
+
+		if (sl && *sl) {
+			long left = atol(sl) * 1000L;
+			while (left > 0 && !got_term) {
+				msleep(left > 50 ? 50 : left);
+				left -= 50;
+			}
+		}
+
+		if (got_term && tcode >= 0) {
+			struct timespec ts;
+			ts.tv_sec = tdelay / 1000;
+			ts.tv_nsec = (tdelay % 1000) * 1000000L;
+			while (nanosleep(&ts, &ts) < 0 && errno == EINTR)
+				;
+			fputs("trapped", stdout);
+			fflush(stdout);
+			return tcode;
+		}
+	}
 
 	if (sg && *sg) {
 		signal(atoi(sg), SIG_DFL);
